@@ -17,6 +17,7 @@ type SQLOpts struct {
 
 	Directives        bool // gomacro:SQL / gomacro:QUERY comment directives (C16)
 	JSONHeavy         bool // at least one jsonb column (C04)
+	PlainQueries      bool // custom queries (UPDATE .. SET c = $a$ WHERE d = $b$, DELETE .. WHERE d = $k$) over scalar columns (executed by C05)
 	PayloadEmbeds     bool // stored documents may embed a struct (flattened; untagged or options-only tag) (C04)
 	NoJSON            bool
 	Executable        bool // restrict to shapes the executed CRUD property can drive (C05)
@@ -939,6 +940,18 @@ func %[1]sArrayToPQ(ids []%[1]s) pq.Int64Array {
 	}
 	if o.Directives {
 		sg.addDirectives(idx, tb, plainCols, fkFields)
+	}
+	if o.PlainQueries && !o.Directives && len(plainCols) >= 1 && rapid.Bool().Draw(t, "plainQuery") {
+		// custom queries over simple scalar columns, executed by C05
+		setCol := plainCols[rapid.IntRange(0, len(plainCols)-1).Draw(t, "plainQuerySet")]
+		whereCol := plainCols[rapid.IntRange(0, len(plainCols)-1).Draw(t, "plainQueryWhere")]
+		fn := sg.fresh("Query" + tb.name + setCol)
+		if rapid.IntRange(0, 2).Draw(t, "plainQueryDelete") == 0 {
+			d.Doc = append(d.Doc, fmt.Sprintf("gomacro:QUERY %s DELETE FROM %s WHERE %s = $key$;", fn, tb.name, whereCol))
+		} else {
+			d.Doc = append(d.Doc, fmt.Sprintf("gomacro:QUERY %s UPDATE %s SET %s = $newValue$ WHERE %s = $selectV$ ;", fn, tb.name, setCol, whereCol))
+		}
+		o.class("directive:custom_query")
 	}
 	if rapid.IntRange(0, 2).Draw(t, "plainDoc") == 0 {
 		d.Doc = append([]string{tb.name + " is a table."}, d.Doc...)
